@@ -85,8 +85,12 @@ func (ex *Exec) truncDivRem(a, b *Term) (*Term, *Term) {
 		r := tf.EMod(aa, b)
 		return tf.Ite(neg, tf.INeg(q), q), tf.Ite(neg, tf.INeg(r), r)
 	}
+	if qr, ok := ex.divMemo[[2]int{a.ID, b.ID}]; ok {
+		return qr[0], qr[1]
+	}
 	q := ex.freshVar("q", IntSort)
 	r := ex.freshVar("r", IntSort)
+	ex.divMemo[[2]int{a.ID, b.ID}] = [2]*Term{q, r}
 	ex.freshDefs[q.Name] = FreshDef{"tq", a, b}
 	ex.freshDefs[r.Name] = FreshDef{"tr", a, b}
 	zero := tf.Inti(0)
@@ -160,8 +164,12 @@ func (ex *Exec) euclidDivMod(a, b *Term) (*Term, *Term) {
 		q, m := new(big.Int).DivMod(a.C, b.C, new(big.Int))
 		return tf.IntConst(q), tf.IntConst(m)
 	}
+	if qr, ok := ex.edivMemo[[2]int{a.ID, b.ID}]; ok {
+		return qr[0], qr[1]
+	}
 	q := ex.freshVar("eq", IntSort)
 	m := ex.freshVar("em", IntSort)
+	ex.edivMemo[[2]int{a.ID, b.ID}] = [2]*Term{q, m}
 	ex.freshDefs[q.Name] = FreshDef{"eq", a, b}
 	ex.freshDefs[m.Name] = FreshDef{"em", a, b}
 	zero := tf.Inti(0)
